@@ -2,14 +2,15 @@
    Pinned: (1) the value codec; (2) vcd_stream_transparent: for the single-threaded body path
    (read_single_stream_of_values + VcdEncoder + wavemem) a bit-vector variable loads as exactly what the parser's
    events record - index into the time table, least kind, characters, equal neighbours once - for every body,
-   every identifier lookup, every block capacity; (3) the rendering of a recorded value is its lower-cased
-   characters (write_render_roundtrip).
+   every identifier lookup, every block capacity; vcd_stream_transparent_rs: the same for real-valued and
+   string-valued variables (reals as the 8 bytes of the parsed double, strings verbatim); (3) the rendering of a
+   recorded value is its lower-cased characters (write_render_roundtrip).
    NOT proved: that the byte machine's events are the whitespace-separated tokens of the text (the events are
-   defined by the machine; prefix_events / cut_at_token_boundary in Properties/C15.v are properties of it), reals,
-   strings, and the multi-threaded path (C03).  Those are decided by the correspondence run and the oracle that is
+   defined by the machine; prefix_events / cut_at_token_boundary in Properties/C15.v are properties of it) and the
+   multi-threaded path (C03).  Those are decided by the correspondence run and the oracle that is
    computed from the abstract history (MANIFEST level_note). *)
 From WV Require Import Model.Base Model.Bits Model.WaveMem Model.VcdBody Spec.TimeSpec Spec.StoreSpec
-  Proofs.BitsProofs Proofs.StoreProofs Proofs.EncoderProofs Proofs.VcdStreamProofs.
+  Proofs.BitsProofs Proofs.StoreProofs Proofs.EncoderProofs Proofs.VcdStreamProofs Proofs.RealStringEnc Proofs.VcdStreamRS.
 Open Scope N_scope.
 
 Check vcd_stream_transparent :
@@ -40,6 +41,24 @@ Check write_render_roundtrip :
 Check lookup_ok :
   forall l s, small_syms l s -> Forall (fun v => v <= 8) s -> lookup_all (lookup_table l) s = Ok (map char_of s).
 
+Check vcd_stream_transparent_rs :
+  forall (parse_f64 : list byte -> option (list byte)),
+  (forall r le, parse_f64 r = Some le -> length le = 8%nat) ->
+  forall (lz_compress : list byte -> list byte) (lz_decompress : list byte -> nat -> option (list byte)),
+  (forall d n, (length d <= n)%nat -> lz_decompress (lz_compress d) n = Some d) ->
+  forall cap, 1 <= cap -> cap <= 65536 ->
+  forall debug tpes lookup input stop_pos e blocks ttb id str,
+  nth_error tpes id = Some (rs_tpe str) ->
+  read_single_stream parse_f64 lz_compress cap debug tpes lookup input stop_pos true = Ok e ->
+  enc_finish lz_compress e = Ok (blocks, ttb) -> N.of_nat (length ttb) < 4294967296 ->
+  exists ops, ops_of lookup true false (fst (parse_body debug input stop_pos)) = Some ops /\
+    (Forall (rs_op_ok id str) ops -> ops_cost id ops < 4294967264 ->
+     exists R sig,
+       Forall2 (gdecodes parse_f64 str) R (recorded_rs id ops [] false) /\
+       load_signal lz_decompress blocks id (rs_tpe str) = Ok sig /\
+       observe_signal sig = Ok (map (fun a : N * list byte => (fst a, if str then KString else KReal, snd a)) (gdedup R))).
+
 Print Assumptions vcd_stream_transparent.
+Print Assumptions vcd_stream_transparent_rs.
 Print Assumptions write_render_roundtrip.
 Print Assumptions lookup_ok.
